@@ -51,8 +51,64 @@ THEOREMS = [
     "Ural.BracketHost.bracketedHostOk_canon",
     "Ural.Props.C01.urlsplit_urlunsplit",
     "Ural.Props.C01.accessors_unsplitNetloc",
+    # the mode round trips that start from unquoted mode, whole function (Props/C02Modes.lean)
+    "Ural.CanonIdem.canonParts_reparsed_quoted",
+    "Ural.Props.C02.canonicalize_quoted_of_unquoted_partial",
+    "Ural.Props.C02.canonicalize_after_unquoted_partial",
+    "Ural.Props.C02.fullWholeModes_fails",
+    # spelling-insensitivity of the whole function on STRINGS (Props/C02Spelling.lean):
+    # every string (cleaning pass) ...
+    "Ural.Props.C02.canon_surrounding",
+    "Ural.Props.C02.canon_control_inserted",
+    "Ural.Props.C02.canon_hex_case_step",
+    "Ural.Props.C02.canon_hex_case",
+    # ... and every string of the grammar class NormBridge.UrlG (bridge: parse_str)
+    "Ural.NormBridge.parse_str",
+    "Ural.Props.C02.ensureProtocol_str",
+    "Ural.Props.C02.canonicalize_str",
+    "Ural.Props.C02.canonSplit_congr",
+    "Ural.Props.C02.canon_scheme_string",
+    "Ural.Props.C02.canon_host_case_string",
+    "Ural.Props.C02.canon_punycode_label_string",
+    "Ural.Props.C02.canon_default_port_string",
+    "Ural.Props.C02.canon_empty_query_string",
+    "Ural.Props.C02.canon_empty_fragment_string",
+    "Ural.Props.C02.canon_path_string",
+    "Ural.Props.C02.canon_dot_segments_string",
+    "Ural.Props.C02.canon_insert_segment_string",
+    "Ural.Props.C02.canon_insert_dot_string",
+    "Ural.Props.C02.canon_path_escaped_ascii_string",
+    "Ural.Props.C02.canon_path_escaped_space_string",
+    "Ural.Props.C02.canon_path_escaped_utf8_string",
+    "Ural.Props.C02.canon_fragment_escaped_ascii_string",
+    "Ural.Props.C02.canon_fragment_escaped_space_string",
+    "Ural.Props.C02.canon_fragment_escaped_utf8_string",
+    "Ural.Props.C02.canon_query_subst_string",
+    "Ural.Props.C02.canon_query_escaped_ascii_string",
+    "Ural.Props.C02.canon_query_escaped_space_string",
+    "Ural.Props.C02.canon_query_escaped_utf8_string",
+    "Ural.Props.C02.canon_userinfo_subst_string",
+    "Ural.Props.C02.canon_userinfo_escaped_ascii_string",
+    "Ural.Props.C02.canon_userinfo_escaped_space_string",
+    "Ural.Props.C02.canon_userinfo_escaped_utf8_string",
+    "Ural.Props.C02.toyPuny_laws",
+    # escape-equivalence of the safe unquoters as substitution laws on strings (Lemmas/C02String.lean)
+    "Ural.C02String.preClean_hex_step",
+    "Ural.C02String.tokens_append_closed",
+    "Ural.C02String.safelyUnquote_escaped_ascii",
+    "Ural.C02String.safelyUnquote_escaped_space",
+    "Ural.C02String.safelyUnquote_escaped_utf8",
+    "Ural.C02String.escaped_ascii_context_needed",
+    "Ural.C02String.pctEncode_ok",
+    "Ural.C02String.splitFirst_subst_shape",
+    "Ural.C02String.splitOn_subst_shape",
+    "Ural.C02String.interch_ascii",
+    "Ural.C02String.interch_space",
+    "Ural.C02String.interch_utf8",
+    "Ural.Props.C04.canonHost_lower",
+    "Ural.Props.C04.preClean_surrounding",
 ]
-EXTRA_IMPORTS = ["UralModel.Props.C02Whole"]
+EXTRA_IMPORTS = ["UralModel.Props.C02Whole", "UralModel.Props.C02Spelling", "UralModel.Props.C02Modes"]
 TABLE_OBLIGATIONS = ["Ural.Props.C02.tables_modes", "Ural.Normpath.pathClean_ascii", "Ural.Props.C01.tables_authority"]
 RULE = (
     "A case is a base URL (structured components over the quantifier's token alphabet) plus a "
@@ -77,27 +133,46 @@ TRUSTED = list(__import__("props.C01", fromlist=["TRUSTED"]).TRUSTED)
 ASSUMPTIONS = [
     "a raw space at the very start or end of the URL is 'surrounding whitespace', not a space of a component: such pairs are not generated",
     "URLs that the parser rejects are outside the property",
+    "the string-level spelling theorems (Props/C02Spelling.lean) are about the whole-string MODEL canonicalizeUrl and, beyond the cleaning pass, about the grammar class NormBridge.UrlG.wf (scheme prefix of 1-64 letters / '//' / none, userinfo without '/?#[]', host without '/?#@:[]' or an IP literal accepted by the model's bracket check, port text without '/?#@[]', absolute or empty path, query without '#'); that a generated pair lies in the class is not evaluated per case: outside it the clause rests on the oracle and on the model-vs-implementation comparison",
+    "'punycode or Unicode' is read as: a label L against canonLabel puny L, the decoded lower-cased label the codec gives for it (the encoder is not modelled)",
 ]
 UNPROVED = (
-    "proved per component, for all strings: idempotence in both modes and the four mode round trips for the "
-    "path (path_modes_partial: absPath; pathClean when the first pass is quoted), userinfo items and fragment "
-    "(opt_modes_partial) and the query (query_modes_partial) -- the round trips that start from quoted mode "
-    "under the explicit hypothesis cleanStr, which excludes exactly KF-C02-1's class (witnesses that the "
-    "full statements fail there are in Props/C02.lean); host idempotence; dot-segment insertion "
-    "(canonPath factors through the resolved view); escape-equivalence (unquote_respects_equiv: %41 vs A, raw "
-    "space vs %20, a non-ASCII character vs its escaped UTF-8 bytes). Whole function: idempotence in "
-    "unquoted mode is a theorem about the URL STRING (canonicalize_idempotent_partial / canonicalize_idempotent, "
-    "parser = the Lean model of urlsplit + accessors, compared with CPython on every run) for every string the "
-    "function accepts, under two explicit side conditions: default protocol of 1-64 letters (PROTOCOL_RE must "
-    "recognise it again) and no '%' in the parsed host (the accessor lower-cases the host while the cleaning pass "
-    "upper-cases escapes: the implementation IS idempotent there - witnesses in the corpus - but the proof would "
-    "need the idna decoder to be insensitive to the case of hex digits after '%'). The former side conditions on "
-    "brackets, on a printed authority and on a result ending with white space are gone (they were KF-C01-1/2, "
-    "KF-C02-3, KF-C02-2, now fixed: printed_last, printSplit_normal). NOT theorems: "
-    "whole-function idempotence in quoted mode and the whole-function spelling-insensitivity / mode round "
-    "trips, which compose the component theorems with the re-parse of the printed URL; punycode vs Unicode spelling of a label beyond the host rule's idempotence (idna codec "
-    "abstract). These are decided on every run by the oracle over every transformation of the statement and "
-    "by the model-vs-implementation comparison of both spellings"
+    "Theorems about the URL STRING (whole function, parser = the Lean model of urlsplit + accessors, compared with "
+    "CPython on every run): for EVERY string -- surrounding white space / control characters (canon_surrounding), "
+    "control characters inserted anywhere (canon_control_inserted), letter case of the hex digits of any escape "
+    "(canon_hex_case_step / canon_hex_case, on decompositions x ++ %h1h2 ++ y); for every pair of strings whose "
+    "cleaned forms are in the grammar class NormBridge.UrlG (CleansTo, decidable; default protocol of 1-64 letters) -- "
+    "letter case of the scheme (canon_scheme_string), letter case of the host (canon_host_case_string, decoder law "
+    "PunyCase), a label in punycode or as the decoder reads it (canon_punycode_label_string, PunyLaws + PunyCase), an "
+    "explicit default port (canon_default_port_string: two different authorities), a bare '?' / '#' "
+    "(canon_empty_query_string, canon_empty_fragment_string), dot / empty segments (canon_dot_segments_string, "
+    "canon_insert_segment_string), %41 vs A, %20 vs a raw space, a non-ASCII character vs its escaped UTF-8 bytes in the "
+    "path, the fragment, the query and the user info (canon_{path,fragment,query,userinfo}_escaped_{ascii,space,utf8}_string; "
+    "from the substitution laws safelyUnquote_escaped_ascii / _space / _utf8 of Lemmas/C02String.lean; the %41-vs-A law has "
+    "one real side condition when the character is a hex digit: the text before it must not end inside an unfinished "
+    "escape, escaped_ascii_context_needed). Idempotence of the whole function in unquoted mode "
+    "(canonicalize_idempotent_partial / canonicalize_idempotent) for every string the function accepts, under two explicit "
+    "side conditions: default protocol of 1-64 letters and no '%' in the parsed host (proof-route condition: the accessor "
+    "lower-cases the host while the cleaning pass upper-cases escapes; the implementation IS idempotent there - witnesses "
+    "in the corpus). Mode round trips of the whole function that START from unquoted mode, same two side conditions "
+    "(Props/C02Modes.lean): canonicalize_quoted_of_unquoted_partial -- quoted(unquoted(u)) = quoted(u) -- and "
+    "canonicalize_after_unquoted_partial (both second modes); FullWholeModes (all four, no side condition) is refuted in the "
+    "model on KF-C02-1's witness (fullWholeModes_fails). Per component, for all strings: idempotence in both modes and the four mode round trips for the path "
+    "(path_modes_partial), userinfo items and fragment (opt_modes_partial), query (query_modes_partial) -- those that start "
+    "from quoted mode under cleanStr / pathClean, which excludes exactly KF-C02-1's class (refutations of the full "
+    "statements in Props/C02.lean). Lemmas only (congruences on intermediate values, not cited for any clause): "
+    "clean_control_irrelevant, hex_case_irrelevant, canon_default_port, unquote_respects_equiv. "
+    "NOT theorems at whole-function level, each named: (1) the two mode compositions that START from quoted mode: "
+    "unquoted(quoted(u)) = unquoted(u) (false on KF-C02-1's class, a theorem per component outside it) and (2) "
+    "quoted(quoted(u)) = quoted(u), idempotence in quoted mode; (3) idempotence in unquoted mode and quoted(unquoted(u)) "
+    "when the parsed host holds a '%'; "
+    "(4) every spelling clause for strings OUTSIDE the grammar class (relative path, brackets in the userinfo, an IP literal "
+    "the model's approximate bracket check rejects or with an IPv4 tail, a host with a non-ASCII cased character, a default "
+    "protocol that is not 1-64 letters); (5) compositions of transformations are not a separate theorem: the string theorems "
+    "chain by transitivity only while the intermediate strings stay in the class; (6) the decoder laws PunyLaws, PunyClean, "
+    "PunyCase are hypotheses, evaluated on the real codec on every run, not proved of CPython's idna codec. These are decided "
+    "on every run by the oracle over every transformation of the statement (thorough: every pair) and by the "
+    "model-vs-implementation comparison of both spellings"
 )
 OPTS = [(False, False), (True, False), (False, True), (True, True)]
 TN = sorted(urlgen.C02_TRANSFORMS)
@@ -303,7 +378,7 @@ def classify(case):
 # the laws the theorems assume of the label decoder (abstract parameter `puny` of the model), on the
 # real decode_punycode_hostname, over the enumerated class of ACE labels, on every run (shared:
 # harness/punylaws.py; a failure is reported as a broken obligation `law`)
-RUN_OBLIGATION_GROUPS = ('PunyLaws', 'PunyClean')
+RUN_OBLIGATION_GROUPS = ('PunyLaws', 'PunyClean', 'PunyCase')
 RUN_OBLIGATIONS = "%s of the real label decoder over the enumerated ACE label class of harness/punylaws.py" % " + ".join(RUN_OBLIGATION_GROUPS)
 
 
